@@ -21,6 +21,12 @@ for d in sorted(glob.glob(os.path.join(ROOT, "seeded", "*"))):
     sj, dj = os.path.join(d, "suite.json"), os.path.join(d, "detect.json")
     if os.path.isfile(fj):
         fin = json.load(open(fj))
+        # a later detection-only run (after a check was strengthened) overrides the detection part
+        if os.path.isfile(dj) and os.path.getmtime(dj) > os.path.getmtime(fj):
+            det_part = json.load(open(dj))
+            fin["detection_in_the_full_run_before_the_check_was_strengthened"] = fin.get("detection", {})
+            fin["detection"] = {**fin.get("detection", {}), **det_part.get("detection", {})}
+            fin["route"] = det_part.get("route", "harness copy rebuilt against the patched scratch worktree")
     elif os.path.isfile(sj) and os.path.isfile(dj):
         fin = json.load(open(sj))
         det_part = json.load(open(dj))
